@@ -664,3 +664,27 @@ Definition trace_steps (probes : list path) := trace_steps_gen step (observe pro
 Definition trace (probes : list path) (ops : list op) :=
   (trace_steps probes world0 ops,
    map (fun f => dump_file 5 (run world0 ops) f) [FA; FB]).
+
+Definition SLASH : Coq.Strings.Ascii.ascii := Coq.Strings.Ascii.Ascii true true true true false true false false.  (* '/' = 47 *)
+
+(** ---- group paths as written in URIs: components between slashes; HDF5 ignores repeated and
+    trailing slashes; parse_cooler_uri prepends "/" when the group part does not start with one *)
+Fixpoint split_slash (s : string) (cur : string) : path :=
+  match s with
+  | Coq.Strings.String.EmptyString =>
+      match cur with Coq.Strings.String.EmptyString => [] | _ => [cur] end
+  | Coq.Strings.String.String c r =>
+      if Coq.Strings.Ascii.eqb c SLASH then
+        match cur with
+        | Coq.Strings.String.EmptyString => split_slash r ""%string
+        | _ => cur :: split_slash r ""%string
+        end
+      else split_slash r (Coq.Strings.String.append cur (Coq.Strings.String.String c Coq.Strings.String.EmptyString))
+  end.
+Definition path_of_string (s : string) : path := split_slash s ""%string.
+Definition uri_group (g : string) : string :=       (* util.parse_cooler_uri, the group part *)
+  match g with
+  | Coq.Strings.String.String c _ =>
+      if Coq.Strings.Ascii.eqb c SLASH then g else Coq.Strings.String.String SLASH g
+  | Coq.Strings.String.EmptyString => Coq.Strings.String.String SLASH g
+  end.
